@@ -512,6 +512,11 @@ def harness_diff(ctx, tie, exe, args, timeout=1200, env=None, max_mismatch=5, pr
             ctx.add_samples(["%s => %s" % (reqs[0], impl[0]), "%s => %s" % (reqs[len(reqs) // 2], impl[len(reqs) // 2])])
     crashed = rc != 0
     tail = (out[-1500:] + "\n" + err[-3000:]) if crashed else ""
+    if crashed:
+        # a long sanitizer report (alloc / free stacks, shadow bytes) pushes its headline out of the tail
+        hm = re.search(r"^.*(?:ERROR: \w+Sanitizer: |runtime error: )[^\n]*", err, re.M)
+        if hm and hm.group(0) not in tail:
+            tail = err[hm.start():hm.start() + 1500] + "\n[...]\n" + tail
     ctx.cov["evaluations"] += len(reqs) + stats.get("cases", 0)
     ctx.cov["distinct_nontrivial"] += len(nts) if nts else len(set(reqs))
     ctx.cov["traces_validated_against_impl"] += len(reqs)
